@@ -17,6 +17,7 @@ enum FontSrc {
     Rows(u8),        // height: glyph g row r = g (every byte value in every row position), rows differ by rotation
     BuiltIn(usize),  // ANSI font page
     EditedDefault,   // the glyphs of the default font under another name, one glyph edited in place (the cached checksum is stale)
+    EditedDefaultSameName, // the same edit, the font keeps the name (and the cached checksum) of the default font
     Sauce(usize),    // SAUCE font index
     /// height, kind: glyph 0 starts with the PSF1 (kind 0) / PSF2 (kind 1) magic number, kind 2: PSF1 magic followed by a mode / charsize
     /// pair that is consistent with the length of the data
@@ -40,6 +41,14 @@ fn make_font(s: &FontSrc) -> Option<BitFont> {
         FontSrc::EditedDefault => {
             let mut f = BitFont::default();
             f.name = "my font".into();
+            if let Some(g) = f.get_glyph_mut('A') {
+                g.data[2] = 0xFF;
+                g.data[9] ^= 0x3C;
+            }
+            Some(f)
+        }
+        FontSrc::EditedDefaultSameName => {
+            let mut f = BitFont::default();
             if let Some(g) = f.get_glyph_mut('A') {
                 g.data[2] = 0xFF;
                 g.data[9] ^= 0x3C;
@@ -564,6 +573,7 @@ fn build(_prop: &str, tier: &str) -> Fonts {
         jobs.push(Job::Bit(FontSrc::BuiltIn(p)));
     }
     jobs.push(Job::Bit(FontSrc::EditedDefault));
+    jobs.push(Job::Bit(FontSrc::EditedDefaultSameName));
     for h in 1..=32u8 {
         for kind in 0..3u8 {
             jobs.push(Job::Bit(FontSrc::Magic(h, kind)));
@@ -606,6 +616,11 @@ fn build(_prop: &str, tier: &str) -> Fonts {
         }
         for name in ["a b", " lead", "trail ", "\u{fc}ml\u{e4}ut", "12345678901\u{7f}"] {
             jobs.push(Job::Tdf(vec![TdfSpec { name: name.into(), ty, spaces: 1, glyphs: vec![GlyphSpec { ch: b'A', w: 2, h: 2, style: 0 }] }], format!("name {name:?}")));
+        }
+        // fonts whose glyph data ends around the 64 KiB a 16 bit offset reaches: every number of maximal glyphs (refused, or read back)
+        for n in 40..=94usize {
+            let glyphs = (0..n).map(|i| GlyphSpec { ch: b'!' + i as u8, w: 30, h: 12, style: (i % 4) as u8 }).collect();
+            jobs.push(Job::Tdf(vec![TdfSpec { name: "edge".into(), ty, spaces: 1, glyphs }], format!("{n} glyphs of 30x12")));
         }
         // the biggest fonts: 94 glyphs of the maximal size (colour fonts exceed the 16 bit offsets)
         for (w, h) in [(30usize, 12usize), (30, 11), (29, 12), (20, 12), (30, 6)] {
